@@ -192,6 +192,7 @@ func (f *remoteWrapper) Config() proxyv1alpha1.RateLimitItemConfiguration {
 }
 
 func (f *remoteWrapper) Sync(limitItem proxyv1alpha1.RateLimitItemConfiguration) {
+	limitItem = f.clampToGlobalLimit(limitItem)
 	if reflect.DeepEqual(limitItem, f.remoteConfig) {
 		return
 	}
@@ -233,6 +234,32 @@ func (f *remoteWrapper) Sync(limitItem proxyv1alpha1.RateLimitItemConfiguration)
 	default:
 		f.GlobalCounterFlowControl = f.newFlowControl(limitItem, newType)
 	}
+}
+
+// clampToGlobalLimit keeps whatever the limiter server answered inside
+// [1, configured global limit] before it is converted to an unsigned size.
+// The minimum quota is 1 as on the limiter server; a token bucket with a
+// rate of 0 does not limit at all.
+func (f *remoteWrapper) clampToGlobalLimit(limitItem proxyv1alpha1.RateLimitItemConfiguration) proxyv1alpha1.RateLimitItemConfiguration {
+	clamp := func(v, max int32) int32 {
+		if v < 1 {
+			return 1
+		}
+		if v > max {
+			return max
+		}
+		return v
+	}
+	localConfig := f.flowControlCache.local.Config()
+	limitItem = *limitItem.DeepCopy()
+	if limitItem.MaxRequestsInflight != nil && localConfig.GlobalMaxRequestsInflight != nil {
+		limitItem.MaxRequestsInflight.Max = clamp(limitItem.MaxRequestsInflight.Max, localConfig.GlobalMaxRequestsInflight.Max)
+	}
+	if limitItem.TokenBucket != nil && localConfig.GlobalTokenBucket != nil {
+		limitItem.TokenBucket.QPS = clamp(limitItem.TokenBucket.QPS, localConfig.GlobalTokenBucket.QPS)
+		limitItem.TokenBucket.Burst = clamp(limitItem.TokenBucket.Burst, localConfig.GlobalTokenBucket.Burst)
+	}
+	return limitItem
 }
 
 func (f *remoteWrapper) newFlowControl(limitItem proxyv1alpha1.RateLimitItemConfiguration, newType proxyv1alpha1.FlowControlSchemaType) GlobalCounterFlowControl {
